@@ -279,6 +279,8 @@ def replay(w):
         x = x.astype(w['dtype'])        # the same (integer-valued) samples stored as integers / single precision; the reference works on a float64 copy
     o = w['opts']
     eo, xo = {'interp_method': o.get('interp', 'splrep')}, {'pad_width': o.get('pad', 2)}
+    if o.get('parabolic'):
+        xo['parabolic_extrema'] = True
     with warnings.catch_warnings():
         warnings.simplefilter('ignore')
         exp = ref_next_imf(x, o['step'], o['max_iters'], o['rule'], o.get('sd', 0.1), o.get('rill', (0.05, 0.5, 0.05)), eo, xo)
@@ -310,13 +312,13 @@ def refute(tier, seed, emit):
     nsig = 40 if tier == 'quick' else 400
     sigs = _signals(r, nsig) + [np.zeros(10), np.arange(10.0), np.array([0, 1, 0, 1, 0, 1, 0.0]), np.array([0.578, 0.532, 0.875, -1.290, 0.622, 0.319])]
     limits = [1, 2, 5, 50] if tier == 'quick' else [1, 2, 3, 5, 10, 50, 1000]
-    emit.scope('%d seeded signals (noise, random walk, multi-tone+trend, integer-valued, AM/FM; length 8..120) + constants / ramps / short alternations x stop rule {sd, rilling, fixed} x iteration limits %s x rilling thresholds {(.05,.5,.05), (.02,.3,.3), (.1,.5,.02)} x step {1, 1/3} x {splrep, pchip} x pad {1,2,3}: result compared with the independently recomputed iterate sequence; non-trivial = more than one iteration' % (len(sigs), limits))
+    emit.scope('%d seeded signals (noise, random walk, multi-tone+trend, integer-valued, AM/FM; length 8..120) + constants / ramps / short alternations x stop rule {sd, rilling, fixed} x iteration limits %s x rilling thresholds {(.05,.5,.05), (.02,.3,.3), (.1,.5,.02)} x step {1, 1/3} x {splrep, pchip, mono_pchip} x pad {1,2,3} x parabolic refinement of the extrema on / off: result compared with the independently recomputed iterate sequence; non-trivial = more than one iteration' % (len(sigs), limits))
     n = 0
     for si, x in enumerate(sigs):
         for rule in ('sd', 'rilling', 'fixed'):
             for mi in limits:
                 step = 1.0 if (si + mi) % 2 == 0 else 1.0 / 3
-                o = {'rule': rule, 'max_iters': mi, 'step': step, 'sd': [0.1, 0.02, 0.5][si % 3], 'rill': [(0.05, 0.5, 0.05), (0.02, 0.3, 0.3), (0.1, 0.5, 0.02)][(si // 3) % 3], 'interp': ['splrep', 'pchip'][si % 2], 'pad': 1 + si % 3}
+                o = {'rule': rule, 'max_iters': mi, 'step': step, 'sd': [0.1, 0.02, 0.5][si % 3], 'rill': [(0.05, 0.5, 0.05), (0.02, 0.3, 0.3), (0.1, 0.5, 0.02)][(si // 3) % 3], 'interp': ['splrep', 'pchip', 'mono_pchip', 'splrep'][si % 4], 'pad': 1 + si % 3, 'parabolic': si % 5 == 4}
                 w = {'kind': 'next_imf', 'x': x.tolist(), 'opts': o}
                 ok, msg = replay(w)
                 emit.case((si, rule, mi), nontrivial=mi > 1, contract='get_next_imf')
